@@ -109,7 +109,17 @@ impl Prop for C01 {
             Ok(Err(e)) => fail!("c01:finish:err", "finish() failed on valid input: {e}"),
             Err(p) => fail!("c01:finish:panic", "finish() panicked on valid input: {p}"),
         }
-        ensure!(sink == bytes, "c01:finish-differs", "finish() and into_inner() produced different files ({})", spec.conf.label());
+        // judged by content (byte equality of the two paths is C11's business, not C01's)
+        {
+            let mut c = rd::cursor(&sink)?;
+            let fwd = rd::scan_fwd(&mut c, n + 2)?;
+            if let Some(d) = rd::first_diff(&fwd, &entries) {
+                fail!("c01:finish:forward", "file ended with finish(): forward scan differs from the inserted pairs ({}): {}", spec.conf.label(), d);
+            }
+            if sink != bytes {
+                obs.class("finish-bytes-differ-from-into_inner");
+            }
+        }
 
         let reader = rd::open(&bytes)?;
         ensure!(reader.len() == n as u64, "c01:len", "len() = {} after {} inserts ({})", reader.len(), n, spec.conf.label());
